@@ -347,6 +347,14 @@ package decorator
 //@   (forall a *ast.Scope :: {has(pr.Dst.Scopes, a)} has(pr.Dst.Scopes, a) ==> allocated(a))
 //@ }
 
+//@ func (pr *Restorer) Print
+//@ requires ready: pr != nil && pr.readyInv()
+
+//@ func (r *FileRestorer) Print
+//@ requires restorer: r.Restorer != nil && r.Ast.Nodes != nil && r.Dst.Nodes != nil
+//@ requires maps: r.mapsInv()
+//@ requires objects: r.robjMapsEntry()
+
 //@ func (pr *Restorer) RestoreFile
 //@ requires ready: pr != nil && pr.readyInv()
 //@ ensures ready: pr.readyInv()
@@ -617,6 +625,14 @@ package decorator
 
 // Entry preconditions: the decorator's maps are as NewDecorator made them or as earlier calls left them.
 //@ func (d *Decorator) DecorateFile
+//@ requires maps: d.decMapsInv()
+//@ requires objects: d.decObjInv()
+
+//@ func (d *Decorator) ParseFile
+//@ requires maps: d.decMapsInv()
+//@ requires objects: d.decObjInv()
+
+//@ func (d *Decorator) Parse
 //@ requires maps: d.decMapsInv()
 //@ requires objects: d.decObjInv()
 
